@@ -110,9 +110,15 @@ pub fn check_program(rep: &Report, p: &Program, text: &str, core_id: Option<Stri
 }
 
 pub fn check_program_with(rep: &Report, p: &Program, text: &str, core_id: Option<String>, cli: bool, tag: &str, ref_steps: usize, replica_steps: usize) -> Checked {
+    check_program_sig(rep, p, text, core_id, cli, tag, ref_steps, replica_steps, "trace")
+}
+
+/// `sig_prefix` replaces the leading "trace" of the failure signatures (other monitors reuse this comparison)
+pub fn check_program_sig(rep: &Report, p: &Program, text: &str, core_id: Option<String>, cli: bool, tag: &str, ref_steps: usize, replica_steps: usize, sig_prefix: &str) -> Checked {
     rep.eval(1);
     let core = core_id.is_some();
     let fail = |sig: String, what: String, detail: String| {
+        let sig = if sig_prefix != "trace" { sig.replacen("trace", sig_prefix, 1) } else { sig };
         rep.fail(Failure {
             sig,
             what,
@@ -259,8 +265,59 @@ fn long_programs(rep: &Report) {
     rep.count("programs longer than 65536 instructions (calls/jumps/loops beyond index 65535)", shapes.len() as u64);
 }
 
+/// call depth: self-recursion bounded by a counter, and procedures left by a jump (their return index stays stacked)
+fn deep_calls(rep: &Report) {
+    let depths: Vec<usize> = vec![1, 2, 100, 127, 128, 129, 130, 200, 255, 256, 257, 1000, 5000];
+    par_for(depths.len() * 2, 1, |j| {
+        let d = depths[j / 2];
+        let p = if j % 2 == 0 {
+            // def rec { inc bx  dec cx  jcxz out  call rec  out: inc dx }   start: mov cx,d  call rec  mov si,77
+            Program {
+                data: vec![],
+                items: vec![
+                    Item::Proc(
+                        "rec".into(),
+                        vec![
+                            Item::Ins(Ins::Un(Un::Inc, Loc::R16(R16::BX))),
+                            Item::Ins(Ins::Un(Un::Dec, Loc::R16(R16::CX))),
+                            Item::Ins(Ins::J(Jcc::Jcxz, "out".into())),
+                            Item::Ins(Ins::Call("rec".into())),
+                            Item::Label("out".into()),
+                            Item::Ins(Ins::Un(Un::Inc, Loc::R16(R16::DX))),
+                        ],
+                    ),
+                    Item::Label("start".into()),
+                    Item::Ins(Ins::Mov(Loc::R16(R16::CX), Src::Imm(d as u16))),
+                    Item::Ins(Ins::Call("rec".into())),
+                    Item::Ins(Ins::Mov(Loc::R16(R16::SI), Src::Imm(77))),
+                ],
+            }
+        } else {
+            // def lv { jmp back }   start: mov cx,d  again: call lv  back: inc bx  loop again  mov si,78
+            Program {
+                data: vec![],
+                items: vec![
+                    Item::Proc("lv".into(), vec![Item::Ins(Ins::J(Jcc::Jmp, "back".into()))]),
+                    Item::Label("start".into()),
+                    Item::Ins(Ins::Mov(Loc::R16(R16::CX), Src::Imm(d as u16))),
+                    Item::Label("again".into()),
+                    Item::Ins(Ins::Call("lv".into())),
+                    Item::Label("back".into()),
+                    Item::Ins(Ins::Un(Un::Inc, Loc::R16(R16::BX))),
+                    Item::Ins(Ins::J(Jcc::Loop, "again".into())),
+                    Item::Ins(Ins::Mov(Loc::R16(R16::SI), Src::Imm(78))),
+                ],
+            }
+        };
+        let text = p.render_plain().text;
+        check_program_with(rep, &p, &text, Some(format!("deep{}k{}", d, j % 2)), d == 129 || d == 1000 || d == 257, if j % 2 == 0 { "recursion" } else { "abandoned-frames" }, 100_000, 200_000);
+    });
+    rep.count("call-depth programs (recursion and abandoned frames up to depth 5000)", (depths.len() * 2) as u64);
+}
+
 pub fn run(rep: &Report) {
     long_programs(rep);
+    deep_calls(rep);
     // (1) bounded-exhaustive small scope
     let t = rep.thorough();
     let maxlen = if t { 4 } else { 3 };
@@ -316,4 +373,4 @@ pub fn run(rep: &Report) {
     rep.floor("programs cross-checked on the real binary", rep.counter("programs cross-checked on the real binary"), 100);
 }
 
-pub const RULE: &str = "structured programs built from identity-carrying instructions (mov reg,<unique id>): forward jumps (taken and not taken, with known flag state), counted loops, procedures calling procedures, explicit ret in the middle and implied ret at the closing brace, macro uses, prints, int 3, hlt at random places, labels before instructions / procedures / macro uses / prints / at the end of the file; block sequences up to the scope are enumerated exhaustively (3 label/procedure placements), programs of more than 65536 instructions place calls, returns, jumps and loops beyond instruction index 65535; larger programs are random with random layout (several items per line, blank lines, with/without final newline). Oracle: a reference interpreter over the AST; the sequence of instruction indices handed to Interpreter::parse by a replica of the driver loop must equal the reference trace, end the same way and leave the same registers, and the real binary's hook trace must equal the replica's. Distinct = (trace length, number of taken transfers, end kind).";
+pub const RULE: &str = "structured programs built from identity-carrying instructions (mov reg,<unique id>): forward jumps (taken and not taken, with known flag state), counted loops, procedures calling procedures, explicit ret in the middle and implied ret at the closing brace, macro uses, prints, int 3, hlt at random places, labels before instructions / procedures / macro uses / prints / at the end of the file; block sequences up to the scope are enumerated exhaustively (3 label/procedure placements), self-recursion and procedures left by a jump up to 5000 stacked returns; programs of more than 65536 instructions place calls, returns, jumps and loops beyond instruction index 65535; larger programs are random with random layout (several items per line, blank lines, with/without final newline). Oracle: a reference interpreter over the AST; the sequence of instruction indices handed to Interpreter::parse by a replica of the driver loop must equal the reference trace, end the same way and leave the same registers, and the real binary's hook trace must equal the replica's. Distinct = (trace length, number of taken transfers, end kind).";
